@@ -44,6 +44,12 @@ TEXTS = {
         note="Trusted: sort.Float64s for the model, Shewchuk exact summation for the reference sum. Both readings of floor(q*(n-1)) (exact / binary64) accepted.",
         technique="stateful model-based property testing (rapid state machine) against a sorted multiset",
     ),
+    'C10': dict(
+        text="Model-based stateful property testing of the exact-summary variant with a plain twin: generated histories over adds (incl. weight 0 and rejected values), merges, decode-merges, copies, clears, reweights, encode/decode and up to three ChangeMapping unit changes; after every step count, emptiness, min and max must equal the exact statistics of the absorbed (value, weight) list bit for bit, the sum must be within a derived few-ulp bound of the arbitrary-precision reference, every quantile must lie in [min,max], and while the state is dyadic every quantile must equal clamp(plain twin's answer, min, max) exactly.",
+        design_ref="DESIGN.md §2 C10, §1.1",
+        note="Trusted: big.Float reference sum; plain twin for un-clamped answers. Compensated vs naive summation cannot be told apart within the bound except on cancellation-heavy inputs (weak spot, DESIGN §5).",
+        technique="stateful model-based property testing (rapid state machine) with an exact statistics model and a differential plain twin",
+    ),
     'C11': dict(
         text="Generated-input search against an exact weighted reference: (value, dyadic weight) multisets with total weight from 2^-10 up (40% below 1, by light adds or by scaling down), every store/mapping kind; each answer must be within alpha of an absorbed value whose exact cumulative-weight interval lies within one unit of the exact rank q*(W-1), inside [min,max] and never of the sign of an empty side. Re-detects repaired finding F4.",
         design_ref="DESIGN.md §2 C11",
@@ -61,6 +67,24 @@ TEXTS = {
         design_ref="DESIGN.md §2 C13",
         note="Trusted: obs.Sketch observer. The grey corner AddWithCount(invalid, 0) on the exact variant is not asserted either way.",
         technique="property-based testing (rapid) with a contract-derived expected outcome and before/after observation equality",
+    ),
+    'C14': dict(
+        text="Model-based stateful property testing over a population of 1-4 live objects (sketches of one variant with per-object store kinds, or stores of the five kinds), each with its own exact model: mutations hit one object, read-only operations (all observers, early-stopped iteration, ToProto, EncodeProto, Encode, Copy, being a merge argument, being a ChangeMapping receiver, store-level Bins/KeyAtRank/ToProto/Encode) hit one object; after every action every object must equal its model and every non-target object must have exactly its previous observation, which exposes impure reads and aliasing between copies.",
+        design_ref="DESIGN.md §2 C14",
+        note="Trusted: per-object models; layout hook only for the non-triviality label (read on a paginated store holding buffered entries).",
+        technique="stateful model-based property testing (rapid state machine) over a multi-object population with before/after observation equality",
+    ),
+    'C15': dict(
+        text="Stateful twin testing: a store (five kinds) or sketch (both variants) is driven through a structure-leaving history, cleared, and then driven in lock-step with a freshly constructed twin through a second history whose indexes/values are placed relative to the first one's (same range, +-1, +-32, +-N, far away), with repeated clear/reuse cycles and decode-merges into the cleared object; observations must be identical after every step and equal the model of the second history alone.",
+        design_ref="DESIGN.md §2 C15",
+        note="Trusted: model of H2; twin built by the public constructors. Bytes of encodings are not compared, decoded content is.",
+        technique="stateful property testing (rapid) with a fresh-object twin and an exact model",
+    ),
+    'C16': dict(
+        text="Metamorphic twin testing: after a generated history, Reweight(w) must leave exactly the observation of a fresh object that replayed the same history with every weight multiplied by w (unit adds thereby take the weighted path; paginated stores are driven to hold both buffered and paged indexes; collapsing stores past their first fold); both must equal w * model; Reweight(1) must be an observable no-op; exact variant: count scaled exactly, min/max unchanged, sum within the derived bound.",
+        design_ref="DESIGN.md §2 C16",
+        note="Trusted: exactness budget for scaled weights (dyadic factors); model scaling.",
+        technique="metamorphic property testing (rapid): replay-with-scaled-weights twin plus exact model",
     ),
     'C18': dict(
         text="Generated-input search: seeded rapid generators of uint64/int64/float64 values (bit-length classes, 2^k+-d, non-finite, subnormal, +1-rounding) and random byte strings, checked against an independent reference codec written from the format documentation (byte-for-byte encodings, sizes, exact consumption with trailing bytes, EOF on every strict prefix without consuming), plus complete enumeration of all byte strings of length <= 2 per decoder and all 256 flags; thorough adds a coverage-guided native fuzz campaign. Exploration is the right level: the property is a for-all over bit patterns with an executable differential oracle.",
